@@ -7,8 +7,10 @@ POOL_TEXT = ("TLC explores the implementation-level TLA+ specification of the po
              "pool coroutines, one action per event-loop handle / user-code point, the user as an explicit environment) for every "
              "environment schedule within small bounds and checks it against the property clauses of spec/Monitor.tla; the same "
              "monitor, run by TLC over traces recorded from the real pool (TLC-generated schedules replayed in lock-step, directed "
-             "reproductions, seeded random schedules), gives the verdict on the code. Exhaustive only within the stated bounds; "
-             "beyond them the executed schedules are a sample.")
+             "reproductions, seeded random schedules, several pools per loop), gives the verdict on the code; the commands executed for "
+             "random/directed schedules are followed in PoolImpl by TLC (spec/PoolFollow.tla) to measure the model's fidelity; Apalache "
+             "proves the slot-accounting lemma (spec/SlotAccounting.tla) inductive for every pool size and TLC checks that PoolImpl refines it. "
+             "Exhaustive only within the stated bounds; beyond them the executed schedules are a sample.")
 POOL_NOTE = ("Trusted: CPython 3.12 asyncio internals used to single-step the real event loop; harness-owned workers/callbacks/"
              "iterators report their events truthfully; TLC. The specification is bound to the code by lock-step replay of its "
              "behaviours (model drift is reported in the evidence, never as a violation); verdicts come only from observable-level clauses.")
@@ -17,7 +19,7 @@ CLAIMED = {}
 for i in range(1, 16):
     CLAIMED["C%02d" % i] = dict(
         category="model_checking", text=POOL_TEXT, note=POOL_NOTE, design_ref="DESIGN.md sections 3-6",
-        technique="TLA+ spec (PoolImpl + Monitor) model-checked with TLC; trace validation of real executions against the TLA+ monitor; TLC-generated schedules replayed on the code",
+        technique="TLA+ spec (PoolImpl + Monitor) model-checked with TLC; trace validation of real executions against the TLA+ monitor; TLC-generated schedules replayed on the code in lock-step; executed schedules followed in the spec; Apalache inductive lemma",
         engine="pool")
 
 CTL_NOTE = ("Trusted: argparse/asyncio streams of CPython 3.12; sessions are driven through ControlServer._client_connected_cb over "
